@@ -69,6 +69,40 @@ func allSourcesSatisfy(p *Prog, v ssa.Value, leaf func(ssa.Value) bool, depth in
 			}
 		}
 		return true
+	case *ssa.Field:
+		// field of a struct value copied out of a local struct cell as a whole (t := *cell; t.f)
+		var fromStruct func(sv ssa.Value, d int) bool
+		fromStruct = func(sv ssa.Value, d int) bool {
+			if d > 3 {
+				return false
+			}
+			switch y := sv.(type) {
+			case *ssa.Phi:
+				for _, e := range y.Edges {
+					if !fromStruct(e, d+1) {
+						return false
+					}
+				}
+				return len(y.Edges) > 0
+			case *ssa.UnOp:
+				a, isA := y.X.(*ssa.Alloc)
+				if !isA || y.Op != token.MUL {
+					return false
+				}
+				vals, ok := structCellFieldSources(a, x.Field)
+				if !ok || len(vals) == 0 {
+					return false
+				}
+				for _, s := range vals {
+					if !allSourcesSatisfy(p, s, leaf, depth+1, seen) {
+						return false
+					}
+				}
+				return true
+			}
+			return false
+		}
+		return fromStruct(x.X, 0)
 	case *ssa.UnOp:
 		// s.f where s is a local struct variable (possibly captured and assigned as a whole inside a closure)
 		if fa, isFA := x.X.(*ssa.FieldAddr); isFA {
@@ -160,6 +194,10 @@ func allSourcesSatisfy(p *Prog, v ssa.Value, leaf func(ssa.Value) bool, depth in
 // structCellFieldSources: every value that can be in field k of the local struct cell a: stores into the field, and
 // field k of struct literals assigned to the cell as a whole — in the function itself or in closures that capture it.
 func structCellFieldSources(a *ssa.Alloc, k int) ([]ssa.Value, bool) {
+	return structCellFieldSourcesD(a, k, 0)
+}
+
+func structCellFieldSourcesD(a *ssa.Alloc, k int, lvl int) ([]ssa.Value, bool) {
 	var out []ssa.Value
 	ok := true
 	var visit func(root ssa.Value, depth int)
@@ -185,20 +223,18 @@ func structCellFieldSources(a *ssa.Alloc, k int) ([]ssa.Value, bool) {
 					ok = false
 					continue
 				}
-				found := false
-				for _, r2 := range *lit.Referrers() {
-					if fa, isFA := r2.(*ssa.FieldAddr); isFA && fa.Field == k && fa.Referrers() != nil {
-						for _, r3 := range *fa.Referrers() {
-							if st, isSt := r3.(*ssa.Store); isSt {
-								out = append(out, st.Val)
-								found = true
-							}
-						}
-					}
+				// the source is a literal under construction, or another struct variable (itself assigned as a whole,
+				// possibly inside a closure): whatever can be in its field k
+				if lit == a || lvl > 2 {
+					ok = false
+					continue
 				}
-				if !found {
-					ok = false // the field keeps its zero value in that literal
+				vals, okL := structCellFieldSourcesD(lit, k, lvl+1)
+				if !okL || len(vals) == 0 {
+					ok = false // (the field keeps its zero value in that literal)
+					continue
 				}
+				out = append(out, vals...)
 			case *ssa.FieldAddr:
 				if y.Field != k || y.Referrers() == nil {
 					continue
